@@ -159,6 +159,9 @@ func (v *Verifier) VerifyFunc(fc *FuncContract) {
 	if ex.Aborted != "" {
 		v.Obls = append(v.Obls, &Obligation{Name: obligationName(fc, "explored"), Func: fc.Key, Label: "explored", Kind: "ensures", Goal: TFalse, Notes: []string{ex.Aborted}, Status: "undecided"})
 	}
+	for _, le := range ex.LoopErrors {
+		v.Errors = append(v.Errors, fc.Key+" "+le)
+	}
 	// loop obligations produced during exploration
 	for _, lo := range ex.LoopObls {
 		hyps := append(append(append([]*Term(nil), lo.St.PC...), lo.St.Facts...), ex.GlobalFacts...)
